@@ -17,7 +17,9 @@ LEVEL_TEXT = (
     "For random formulas over every stateful and stateless built-in transform (nested, repeated, in interactions) the real code "
     "fits a matrix and the attached spec is then replayed on a random history of follow-up frames drawn from the training rows; "
     "each replay must give the same column names and exactly the training rows' values (row-locality), also through a pickled "
-    "spec and through model_matrix(spec, data) / model_matrix(matrix, data). Held-on-observed."
+    "spec and through model_matrix(spec, data) / model_matrix(matrix, data). Formulas may be multi-part (parts sharing factors; each part's own "
+    "spec is also replayed alone), columns may need quoting (two names that sanitize alike, next to a plain column of that name that "
+    "comes and goes between fit and follow-up), transforms may be reached through an object in the caller's context. Held-on-observed."
 )
 LEVEL_NOTE = "trusts: numpy allclose (rtol 1e-9); pickle"
 RULE = (
